@@ -170,4 +170,19 @@ CLAIMS = {
         'technique': 'static analysis: who-writes ownership sweep, finite-domain decision tables by abstract '
                      'interpretation of append_output / input tracker / set_input (ast only)',
     },
+    'C17': {
+        'text': "Losslessness follows from the regex AST of the section pattern (one capturing group, everything else "
+                "zero-width, line-anchored) and from separate_into_sections splitting the unmodified main code with "
+                "re.MULTILINE. next_section is executed abstractly over six file shapes (no markers, marker on the "
+                "first/last line, adjacent markers, empty file) x independent/cumulative x successive calls up to two "
+                "past the end: presented text, line offset and the not_enough_sections branch are compared with the "
+                "property. Offset discipline is a provenance rule: TIFA's locate() (and every _issue site using it), "
+                "traceback frames, the traceback's line_number used by the sandbox, and syntax_error must add a value "
+                "derived from submission.line_offsets. Restoration: substitution push/pop pairing and agreement of all "
+                "hook registrations with execute_hooks triggers (constants resolved).",
+        'note': _NOTE + "Not decided: custom section patterns; CAIT-derived locations; stale line offsets after "
+                        "stop_sections (outside the statement).",
+        'technique': 'static analysis: regex AST, finite-domain decision table of next_section by abstract '
+                     'interpretation, def-use provenance of line numbers, registry agreement (ast only)',
+    },
 }
